@@ -175,6 +175,19 @@ var checkLaws = ev.Register("mwu-laws", func(c *Case) ev.Outcome {
 	} else {
 		classes = append(classes, "no-ties")
 	}
+	posZero, negZero := false, false
+	for _, v := range pooled {
+		if v == 0 {
+			if math.Signbit(v) {
+				negZero = true
+			} else {
+				posZero = true
+			}
+		}
+	}
+	if posZero && negZero {
+		classes = append(classes, "zeros-of-both-signs")
+	}
 	if c.ExactLimit == 50 && c.TiesLimit == 25 {
 		classes = append(classes, "limits-default")
 	} else {
@@ -476,7 +489,35 @@ func drawCase(t *rapid.T) *Case {
 	}
 	c.Perm1 = gen.Perm(t, n1, "perm1")
 	c.Perm2 = gen.Perm(t, n2, "perm2")
+	signedZeros(t, c)
 	return c
+}
+
+// signedZeros turns, in a quarter of the cases, two neighbouring values that occur in the data
+// into -0 and +0: equal as numbers (one tie group, half a pair each), different as bit patterns,
+// and in no fixed order after a sort.
+func signedZeros(t *rapid.T, c *Case) {
+	used := map[int]bool{}
+	for _, l := range c.L1 {
+		used[l] = true
+	}
+	for _, l := range c.L2 {
+		used[l] = true
+	}
+	var lv []int
+	for l := range c.Values {
+		if used[l] {
+			lv = append(lv, l)
+		}
+	}
+	if len(lv) < 2 || rapid.IntRange(0, 3).Draw(t, "signedZeros") != 0 {
+		return
+	}
+	i := rapid.IntRange(0, len(lv)-2).Draw(t, "zeroAt")
+	if v := gen.SignedZeros(c.Values, lv[i], lv[i+1]); v != nil {
+		c.Values = v
+		gen.FlattenEqual(c.Values, c.Mapped)
+	}
 }
 
 func maxOf(a, b int) int {
